@@ -12,6 +12,8 @@
 //! * `text`  : format -> parse round trip for every type castable both ways to
 //!             the string types, default and custom `FormatOptions`.
 //! * `dtype` : `DataType::to_string().parse() == dt`.
+//! * `sparse`: hand-built dictionaries with more than twice as many entries as
+//!             rows (the per-dictionary-value cast path), split / invalid UTF-8.
 //!
 //! not asserted:
 //! * casts *to* `DataType::Null` (everything becomes null by definition);
@@ -1740,12 +1742,104 @@ fn section_dtype(ctx: &mut Ctx) {
     }
 }
 
+/// `sparse`: dictionaries with far more dictionary entries than rows (cast
+/// kernels switch to a per-dictionary-value path when `keys.len() <
+/// values.len() / 2`), built by hand because the layout generator only adds a
+/// few unused entries. Dictionary values include multi-byte characters, byte
+/// values that are only valid UTF-8 when concatenated with their neighbour,
+/// plain invalid bytes and nulls; keys hit a random subset, with null keys.
+fn sparse_dict(rng: &mut Rng, kt: &DataType, vt: &DataType) -> (ArrayRef, Vec<Val>) {
+    use arrow_array::types::*;
+    use arrow_array::{DictionaryArray, PrimitiveArray};
+    let binary = is_binary(vt);
+    let nkeys = rng.below(7);
+    let ndict = 2 * nkeys + 3 + rng.below(12);
+    let pool: [&[u8]; 10] = [b"", b"a", "\u{e9}".as_bytes(), "\u{65e5}\u{672c}".as_bytes(), b"0123456789abcdef", b"12", b"-7", "\u{1F600}x".as_bytes(), b"true", b"1.5"];
+    let mut dict: Vec<Val> = Vec::with_capacity(ndict);
+    while dict.len() < ndict {
+        let c = rng.below(10);
+        if binary && c == 0 && dict.len() + 2 <= ndict {
+            // a character split over two adjacent dictionary values
+            dict.push(Val::Bytes(vec![b'x', 0xC3]));
+            dict.push(Val::Bytes(vec![0xA9, b'y']));
+        } else if binary && c == 1 {
+            dict.push(Val::Bytes(vec![0xFF, b'z']));
+        } else if c == 2 {
+            dict.push(Val::Null);
+        } else {
+            let b = pool[rng.below(pool.len())];
+            dict.push(if binary { Val::Bytes(b.to_vec()) } else { Val::Str(String::from_utf8(b.to_vec()).unwrap()) });
+        }
+    }
+    let values = build(vt, &dict);
+    let mut ks: Vec<Option<usize>> = Vec::with_capacity(nkeys);
+    let mut vals: Vec<Val> = Vec::with_capacity(nkeys);
+    for _ in 0..nkeys {
+        if rng.chance(1, 5) {
+            ks.push(None);
+            vals.push(Val::Null);
+        } else {
+            let k = rng.below(ndict);
+            ks.push(Some(k));
+            vals.push(dict[k].clone());
+        }
+    }
+    macro_rules! mk {
+        ($t:ty) => {{
+            let keys: PrimitiveArray<$t> = ks.iter().map(|k| k.map(|k| k as <$t as ArrowPrimitiveType>::Native)).collect();
+            Arc::new(DictionaryArray::<$t>::try_new(keys, values).expect("sparse dictionary")) as ArrayRef
+        }};
+    }
+    let arr = match kt {
+        DataType::Int8 => mk!(Int8Type),
+        DataType::UInt16 => mk!(UInt16Type),
+        DataType::Int32 => mk!(Int32Type),
+        _ => mk!(Int64Type),
+    };
+    (arr, vals)
+}
+
+fn section_sparse(ctx: &mut Ctx, book: &mut Book) {
+    use DataType::*;
+    let kts = [Int8, UInt16, Int32, Int64];
+    let vts = [Binary, LargeBinary, Utf8, LargeUtf8, BinaryView, Utf8View];
+    let tts = [Utf8View, BinaryView, Utf8, LargeUtf8, Binary, LargeBinary, Int32, Boolean, Float64];
+    let reps = ctx.tier.pick(1, 40, 1500);
+    let total = (kts.len() * vts.len() * tts.len()) as u64;
+    for idx in ctx.cases("sparse", total) {
+        if ctx.out_of_time() {
+            break;
+        }
+        let mut rng = ctx.begin("sparse", idx);
+        let i = idx as usize;
+        let kt = &kts[i % kts.len()];
+        let vt = &vts[(i / kts.len()) % vts.len()];
+        let b = &tts[i / (kts.len() * vts.len())];
+        let a = Dictionary(Box::new(kt.clone()), Box::new(vt.clone()));
+        if !can_cast(&a, b) {
+            continue;
+        }
+        for _ in 0..reps {
+            let what = format!("sparse {a} -> {b}");
+            guarded(ctx, &what, |ctx| {
+                let (arr, vals) = sparse_dict(&mut rng, kt, vt);
+                let r = run_checked(&a, b, &vals, &arr, false, &mut rng);
+                classify(ctx, &a, b, "sparse", &r);
+                report(ctx, book, &a, b, &vals, "sparse", &r);
+                ctx.count("sparse_dictionaries", 1);
+                ctx.sample(|| format!("{a} -> {b} [sparse] outcome={} nulled={} input {}", r.outcome, r.nulled, dump_vals(&vals)));
+            });
+        }
+    }
+}
+
 pub fn run(ctx: &mut Ctx) {
     let mut book = Book::new();
     // cheap deterministic sections first: the wall-clock deadline only ever
     // cuts the random exploration at the end
     section_dtype(ctx);
     section_text(ctx);
+    section_sparse(ctx, &mut book);
     section_grid(ctx, &mut book, false);
     section_exh(ctx, &mut book);
     section_grid(ctx, &mut book, true);
